@@ -77,7 +77,13 @@ def run_trades(script: dict) -> dict:
             pass
         logging.disable(logging.NOTSET)
         return None
-    vloop.run(scenario)
+    livelock = False
+    try:
+        with vloop.wall_clock_limit(4) as limit:
+            vloop.run(scenario, max_iters=20000)    # a trade-stream scenario needs a few dozen iterations and milliseconds
+        livelock = limit.fired
+    except vloop.Livelock:
+        livelock = True            # main() spins without ever sleeping: no bar is emitted at the end of its window any more
     bars, offgrid = [], []
     for ev, at_us in bars_out:
         b = ev.bar
@@ -97,7 +103,7 @@ def run_trades(script: dict) -> dict:
     return {"kind": "trades", "W": W, "delay": delay_ticks,
             "H": {"pushes": pushes_out, "bars": bars, "k0": script["start"] // W, "nflushed": state["nflushed"],
                   "skipFirst": script["skipFirst"]},
-            "offgrid": offgrid, "errors": len(errors), "script": script}
+            "offgrid": offgrid + ([{"livelock": True}] if livelock else []), "errors": len(errors), "script": script}
 
 
 ENCODINGS = ["utf-8", "utf-8-sig", "utf-16-le+bom", "utf-16-be+bom", "utf-16-le", "utf-16-be",
